@@ -10,7 +10,7 @@ Monitors (all attached from outside):
   * payload tap on every concrete `receive` override of IOSoftware subclasses (state at entry, return value, frames sent
     from inside): software that is not RUNNING must not handle a payload; `get_open_ports()` / `check_port_is_open()` must
     not report a port that no RUNNING software owns or listens on;
-  * registry agreement (by software NAME) after every operation: software_manager.software, node.services /
+  * registry agreement (by software name and by object identity) after every operation: software_manager.software, node.services /
     node.applications, request routes, port_protocol_mapping, describe_state().
 Workload: one target software per case family on host T (peer host P drives inbound payloads with the matching client),
 bounded-exhaustive event words plus a drain; random words on a host that carries many services and applications.
@@ -126,7 +126,6 @@ class Monitor:
         self.writes = 0
         self.states_seen = set()
         self.completed = set()
-        self.dup_names = set()
 
     # ---- reporting
     def v(self, mech, msg):
@@ -159,9 +158,9 @@ class Monitor:
             mon.cov.hit("edges", f"{kind}|{e[0]}->{e[1]}")
             cur = mon.T.software_manager.software.get(sw.name)
             if cur is not sw:
-                # object not (yet / any longer) the registered instance of that name: a new object inside install, or the
-                # shadowed older instance of a duplicated system software. Not judged edge by edge.
-                mon.cov.hit("diag_writes_on_unregistered_instance", sw.name)
+                # a new object inside an install request, before it is registered (or the instance being replaced): the
+                # resulting state is judged at the quiescent point, the registries by object identity
+                mon.cov.hit("diag_writes_on_instance_not_registered_yet", sw.name)
                 return
             verb, target = mon.event
             if verb is None:
@@ -278,11 +277,6 @@ class Monitor:
             if a not in self.refs:
                 self.kinds[a] = L.APPLICATION
                 self.refs[a] = L.RefSoftware(a, L.APPLICATION, L.C, timing[L.APPLICATION], present=False)
-        for coll in (self.T.services, self.T.applications):
-            names = [x.name for x in coll.values()]
-            self.dup_names |= {x for x in names if names.count(x) > 1}
-        if self.dup_names and self.family != "dup":
-            self.cov.hit("diag_unexpected_duplicate_instances", ",".join(sorted(self.dup_names)))
         self.armed = True
 
     def cur(self, name):
@@ -617,14 +611,26 @@ class Monitor:
             union = set().union(*views.values())
             if any(v != union for v in views.values()):
                 missing = {a: sorted(union - v) for a, v in views.items() if v != union}
-                odd = set().union(*[set(m) for m in missing.values()])
-                suffix = "/duplicated-system-software" if odd <= self.dup_names else ""
-                self.v(f"registry-disagreement/{label}@{at}{suffix}", f"after {self.log[-1]}: {label} listed by name differ; missing from "
+                self.v(f"registry-disagreement/{label}@{at}", f"after {self.log[-1]}: {label} listed by name differ; missing from "
                        f"each view: {missing} (views: software_manager.software, node.{label}, request routes"
                        f"{', describe_state' if with_state else ''})")
-            dup = [n for n in in_node if sum(1 for s in (T.services if isvc else T.applications).values() if s.name == n) > 1]
-            for n in dup:
-                self.cov.hit("diag_duplicate_instances", n)
+                continue
+            # same names everywhere: the views must also hold the same OBJECTS (one instance per name)
+            coll = (T.services if isvc else T.applications)
+            rm = (T._service_request_manager if isvc else T._application_request_manager)
+            names = [x.name for x in coll.values()]
+            if len(names) != len(set(names)):
+                dups = sorted({x for x in names if names.count(x) > 1})
+                self.v(f"registry-duplicate-instance/{label}@{at}", f"after {self.log[-1]}: node.{label} holds more than one instance of {dups}")
+                continue
+            for x in coll.values():
+                if sm.software.get(x.name) is not x:
+                    self.v(f"registry-instance-mismatch/{label}@{at}", f"after {self.log[-1]}: node.{label} holds an instance of {x.name} that is "
+                           f"not software_manager.software[{x.name!r}]")
+            for n in in_sw:
+                if rm.request_types[n].func is not sm.software[n]._request_manager:
+                    self.v(f"registry-stale-route/{label}@{at}", f"after {self.log[-1]}: the request route '{n}' does not lead to the installed "
+                           f"instance of {n}")
         # port map: no stale entry; every installed software with a real port is reachable through its key
         for key, s in sm.port_protocol_mapping.items():
             if sm.software.get(s.name) is not s:
@@ -779,8 +785,9 @@ class Check:
         "execute, of uninstalling an absent application, and what fix/scan/execute do to the operating state are not judged (docs silent)",
         "restart/install complete on tick max(1, d+offset) with offset in {0,1} calibrated once per process on an undisturbed run (d=2); "
         "a node power event during a restart/install makes the completion tick not judged",
-        "registries are compared by software NAME; port_protocol_mapping holds one entry per (port, protocol): judged are stale entries "
-        "and installed software (port != 0) whose key maps to nothing installed with that key",
+        "registries are compared by software name and then by object identity (one instance per name; route -> that instance's request "
+        "manager); port_protocol_mapping holds one entry per (port, protocol): judged are stale entries and installed software "
+        "(port != 0) whose key maps to nothing installed with that key",
         "a port is 'open without running software' only if no RUNNING software on the node owns or listens on that port number; port 0 is not a port",
         "handled payload = receive() returned a true value or sent a payload from inside receive() while the software was not RUNNING at entry",
     ]
@@ -911,7 +918,7 @@ class Check:
                 ctx = {"family": "conn", "which": which, "install_d": d, "via": via}
                 if which in ("dbclient", "dosbot"):
                     app = "database-client" if which == "dbclient" else "dos-bot"
-                    sc = scenario(services=[], apps=[app], third=True, app_opts={"dos-bot": {"target_ip_address": SIP, "max_sessions": 3, "port_scan_p_of_success": 1.0}})
+                    sc = scenario(services=[], apps=[app], third=True, app_opts={"dos-bot": {"target_ip_address": SIP, "max_sessions": 3, "port_scan_p_of_success": 1.0, "repeat": True}})
                     for nconn in (0, 1, 3):
                         def word(mon_box, nconn=nconn, app=app):
                             yield ("tick", None)
@@ -991,7 +998,7 @@ class Check:
             for via in ("request", "action"):
                 word = [(e, None if e in NODE_EVENTS else t) for e in evs]
                 mon = run_word(sc, word, cov, out, {"family": "dup", "target": t, "events": evs, "via": via,
-                                                    "note": "system software listed again in the scenario (or auto-installed twice)"}, "dup", via=via)
+                                                    "note": "system software listed again in the scenario (or auto-installed and listed)"}, "dup", via=via)
                 account(mon, ["dup", t, evs, via])
 
     def run_shared(self, spec, cov, out, account):
